@@ -8,6 +8,7 @@ deposit totals, bank totals and supply.
 -/
 namespace Hub.Model
 open Hub.SDK
+variable {σ : Tbl Denom Int}
 
 theorem bind_eq_ok {α β : Type} {x : M α} {f : α → M β} {b : β} :
     (x >>= f) = .ok b ↔ ∃ a, x = .ok a ∧ f a = .ok b := by
@@ -134,7 +135,7 @@ theorem sendCoins_ok {s s' : State} {f t : Addr} {c : Coin} (h : sendCoins s f t
 /-! ### the money frame: a step that only touches bank, supply, deposits and events -/
 
 def MoneyFrame (s s' : State) : Prop :=
-  s' = { s with bank := s'.bank, deposits := s'.deposits, supply := s'.supply, events := s'.events }
+  s' = { s with bank := s'.bank, deposits := s'.deposits, events := s'.events }
 
 theorem MoneyFrame.refl (s : State) : MoneyFrame s s := rfl
 
@@ -166,13 +167,13 @@ theorem supplyOf_frame {s s' : State} (h : s'.supply = s.supply) (d : Denom) : s
   unfold supplyOf; rw [h]
 
 /-- `sendCoins` between two accounts other than the escrow keeps the money invariant. -/
-theorem sendCoins_inv {s s' : State} {f t : Addr} {c : Coin} (h : sendCoins s f t c = .ok s') (hi : MoneyInv s)
-    (hf : f ≠ depositAddr) (ht : t ≠ depositAddr) : MoneyInv s' := by
+theorem sendCoins_inv {s s' : State} {f t : Addr} {c : Coin} (h : sendCoins s f t c = .ok s') (hi : MoneyInv σ s)
+    (hf : f ≠ depositAddr) (ht : t ≠ depositAddr) : MoneyInv σ s' := by
   obtain ⟨hb, hfr, hn⟩ := sendCoins_ok h
   obtain ⟨hn1, hn2⟩ := hn hi.bankNodup
   have hdep : s'.deposits = s.deposits := by rw [hfr]
   have hsup : s'.supply = s.supply := by rw [hfr]
-  refine ⟨?_, ?_, ?_, hn1, ?_, ?_⟩
+  refine ⟨?_, ?_, ?_, hn1, ?_, ?_, hsup.trans hi.supplyEq⟩
   · intro d
     rw [hb]
     have : totalDeposits s' d = totalDeposits s d := by unfold totalDeposits; rw [hdep]
@@ -193,8 +194,8 @@ theorem depNonneg_setDeposit {s : State} (hi : ∀ a cs, s.deposits.get a = some
   · simp only [h, if_false] at hg; exact hi a' cs' hg
 
 /-- `SendCoinsFromAccountToDeposit`. -/
-theorem depositAdd_inv {s s' : State} {f t : Addr} {c : Coin} (h : depositAdd s f t c = .ok s') (hi : MoneyInv s)
-    (hf : f ≠ depositAddr) : MoneyInv s' ∧ MoneyFrame s s' := by
+theorem depositAdd_inv {s s' : State} {f t : Addr} {c : Coin} (h : depositAdd s f t c = .ok s') (hi : MoneyInv σ s)
+    (hf : f ≠ depositAddr) : MoneyInv σ s' ∧ MoneyFrame s s' := by
   unfold depositAdd at h
   simp only [bind_eq_ok, pure_eq_ok, require_eq_ok] at h
   obtain ⟨s1, hs1, _, hneg, rfl⟩ := h
@@ -205,7 +206,7 @@ theorem depositAdd_inv {s s' : State} {f t : Addr} {c : Coin} (h : depositAdd s 
   have hnd1 : Tbl.Nodup s1.deposits := by rw [hdep]; exact hi.depNodup
   have hnn : Coins.Nonneg (((getDeposit s1 t).getD []).add c) :=
     Coins.nonneg_of_not_anyNegative (by simpa using hneg)
-  refine ⟨⟨?_, ?_, ?_, ?_, ?_, ?_⟩, ?_⟩
+  refine ⟨⟨?_, ?_, ?_, ?_, ?_, ?_, hsup.trans hi.supplyEq⟩, ?_⟩
   · intro d
     show balance (setDeposit s1 t (((getDeposit s1 t).getD []).add c)) depositAddr d = totalDeposits (setDeposit s1 t (((getDeposit s1 t).getD []).add c)) d
     rw [totalDeposits_setDeposit hnd1, Coins.amountOf_add]
@@ -229,8 +230,8 @@ theorem depositAdd_inv {s s' : State} {f t : Addr} {c : Coin} (h : depositAdd s 
 escrow account pays out. -/
 theorem depositOut_inv {s s1 : State} {f t : Addr} {c : Coin} {cur : Coins} {e : Event}
     (hs1 : sendCoins s depositAddr t c = .ok s1) (hcur : getDeposit s f = some cur)
-    (hneg : (cur.sub c).isAnyNegative = false) (hi : MoneyInv s) (ht : t ≠ depositAddr) :
-    MoneyInv (emit (setDeposit s1 f (cur.sub c)) e) ∧ MoneyFrame s (emit (setDeposit s1 f (cur.sub c)) e) := by
+    (hneg : (cur.sub c).isAnyNegative = false) (hi : MoneyInv σ s) (ht : t ≠ depositAddr) :
+    MoneyInv σ (emit (setDeposit s1 f (cur.sub c)) e) ∧ MoneyFrame s (emit (setDeposit s1 f (cur.sub c)) e) := by
   obtain ⟨hb, hfr, hn⟩ := sendCoins_ok hs1
   obtain ⟨hn1, hn2⟩ := hn hi.bankNodup
   have hdep : s1.deposits = s.deposits := by rw [hfr]
@@ -238,7 +239,7 @@ theorem depositOut_inv {s s1 : State} {f t : Addr} {c : Coin} {cur : Coins} {e :
   have hnd1 : Tbl.Nodup s1.deposits := by rw [hdep]; exact hi.depNodup
   have hnn : Coins.Nonneg (cur.sub c) := Coins.nonneg_of_not_anyNegative hneg
   have hcur1 : getDeposit s1 f = some cur := by unfold getDeposit; rw [hdep]; exact hcur
-  refine ⟨⟨?_, ?_, ?_, ?_, ?_, ?_⟩, ?_⟩
+  refine ⟨⟨?_, ?_, ?_, ?_, ?_, ?_, hsup.trans hi.supplyEq⟩, ?_⟩
   · intro d
     show balance (setDeposit s1 f (cur.sub c)) depositAddr d = totalDeposits (setDeposit s1 f (cur.sub c)) d
     rw [totalDeposits_setDeposit hnd1, Coins.amountOf_sub, hcur1]
@@ -259,8 +260,8 @@ theorem depositOut_inv {s s1 : State} {f t : Addr} {c : Coin} {cur : Coins} {e :
 
 theorem isBlocked_depositAddr : isBlocked depositAddr = true := by decide
 
-theorem depositToAccount_inv {s s' : State} {f t : Addr} {c : Coin} (h : depositToAccount s f t c = .ok s') (hi : MoneyInv s) :
-    MoneyInv s' ∧ MoneyFrame s s' := by
+theorem depositToAccount_inv {s s' : State} {f t : Addr} {c : Coin} (h : depositToAccount s f t c = .ok s') (hi : MoneyInv σ s) :
+    MoneyInv σ s' ∧ MoneyFrame s s' := by
   unfold depositToAccount sendModuleToAccount at h
   simp only [bind_eq_ok, pure_eq_ok, require_eq_ok, orReject_eq_ok] at h
   obtain ⟨cur, hcur, _, hneg, s1, hs1, rfl⟩ := h
@@ -271,8 +272,8 @@ theorem depositToAccount_inv {s s' : State} {f t : Addr} {c : Coin} (h : deposit
       intro e; rw [e] at hb; exact hb isBlocked_depositAddr
     exact depositOut_inv hs1 hcur (by simpa using hneg) hi ht
 
-theorem depositToModule_inv {s s' : State} {f m : Addr} {c : Coin} (h : depositToModule s f m c = .ok s') (hi : MoneyInv s)
-    (hm : m ≠ depositAddr) : MoneyInv s' ∧ MoneyFrame s s' := by
+theorem depositToModule_inv {s s' : State} {f m : Addr} {c : Coin} (h : depositToModule s f m c = .ok s') (hi : MoneyInv σ s)
+    (hm : m ≠ depositAddr) : MoneyInv σ s' ∧ MoneyFrame s s' := by
   unfold depositToModule at h
   simp only [bind_eq_ok, pure_eq_ok, require_eq_ok, orReject_eq_ok] at h
   obtain ⟨cur, hcur, _, hneg, s1, hs1, rfl⟩ := h
